@@ -26,7 +26,7 @@ Section Dec.
        m_root := u64 (b + 16); m_seq := u64 (b + 24); m_fl := u64 (b + 32); m_mark := u64 (b + 40);
        m_txid := u64 (b + 48); m_sum := u64 (b + 56) |}.
 
-  Definition meta_sum_at (b : N) : N := fnv64a (rbytes 56 b).
+  Definition meta_sum_at (b : N) : N := fnv64a_fast (rbytes 56 b).
 
   (** Meta.Validate: magic, version, checksum - in this order *)
   Inductive mverr := MOk | MInvalid | MVersionMismatch | MChecksum.
@@ -47,6 +47,59 @@ Section Dec.
     let '(a, va, b, vb) := if m_txid m0 <? m_txid m1 then (m1, meta_valid 1, m0, meta_valid 0)
                            else (m0, meta_valid 0, m1, meta_valid 1) in
     if va then Some a else if vb then Some b else None.
+
+  (** ---- Open: page-size detection, validation of both metas, choice (db.getPageSize, db.mmap, db.meta) ---- *)
+End Dec.
+
+Section Open.
+  Variable rd : N -> N.
+  Variable flen : N.          (* file length in bytes *)
+  Variable dps : N.           (* page size given in the options / OS page size *)
+
+  Inductive openres := OpenOk (ps : N) (m : meta) | OpenErr (e : mverr) | OpenTooSmall.
+
+  (** getPageSizeFromSecondMeta: probe offsets 1024 << i, i = 0..14, while pos < flen - 1024 *)
+  Fixpoint probe_second (i : nat) (pos : N) : option N :=
+    match i with O => None | S i' =>
+      if flen - 1024 <=? pos then None
+      else if meta_valid_at rd (pos + page_header_size) then Some (m_pagesize (rd_meta_at rd (pos + page_header_size)))
+      else probe_second i' (2 * pos)
+    end.
+
+  (** [v0] = Validate of the structure at offset 16 (slot 0 sits there whatever the page size) *)
+  Definition page_size_model (v0 : mverr) : option N :=
+    let can0 := 4096 <=? flen in
+    if can0 && match v0 with MOk => true | _ => false end then Some (m_pagesize (rd_meta_at rd page_header_size))
+    else match probe_second 15 1024 with
+         | Some ps => Some ps
+         | None => let can1 := 1024 <? flen - 1024 in
+                   if can0 || can1 then Some dps else None
+         end.
+
+  Definition open_model : openres :=
+    let v0 := validate_at rd page_header_size in
+    match page_size_model v0 with
+    | None => OpenErr MInvalid
+    | Some ps =>
+      if flen <? 2 * ps then OpenTooSmall else
+      let v1 := validate_at rd (ps + page_header_size) in
+      let m0 := rd_meta_at rd page_header_size in
+      let m1 := rd_meta_at rd (ps + page_header_size) in
+      let ok0 := match v0 with MOk => true | _ => false end in
+      let ok1 := match v1 with MOk => true | _ => false end in
+      if negb (ok0 || ok1) then OpenErr v0 else
+      (* db.meta(): the valid meta with the larger txid (meta 1 only if strictly larger) *)
+      let m := if m_txid m0 <? m_txid m1 then (if ok1 then m1 else m0) else (if ok0 then m0 else m1) in
+      if flen <? m_mark m * ps then OpenTooSmall      (* shorter than its own high-water mark *)
+      else OpenOk ps m
+    end.
+End Open.
+
+Section Dec2.
+  Variable rd : N -> N.
+  Variable ps : N.
+  Notation u16 := (u16 rd). Notation u32 := (u32 rd). Notation u64 := (u64 rd). Notation rbytes := (rbytes rd).
+  Notation choose_meta := (choose_meta rd ps).
 
   (** ---- tree pages ---- *)
   Definition idxs (count : N) : list N := map N.of_nat (seq 0 (N.to_nat count)).
@@ -175,4 +228,4 @@ Section Dec.
     let mark := m_mark (v_meta v) in
     eqlN all (run 2 (mark - 2)).
 
-End Dec.
+End Dec2.
